@@ -649,7 +649,8 @@ run_b(const char *path)
                                         /* the library faulted while handling this case: manager state is lost */
                                         alarm(0);
                                         fault_armed = 0;
-                                        mgrs[mi].mgr = make_mgr(&mgrs[mi]); /* old one is leaked on purpose */
+                                        free_mb_mgr(mgrs[mi].mgr); /* plain memory: safe to release even after a fault */
+                                        mgrs[mi].mgr = make_mgr(&mgrs[mi]);
                                         m = mgrs[mi].mgr;
                                         if (m) {
                                                 nbr_init(m, &NA, 64, 1);
@@ -663,6 +664,7 @@ run_b(const char *path)
                                          * re-submitted it to the hash manager and left a stale lane behind that later wrote
                                          * a digest through a recycled descriptor.  Should it come back, the probe in mode m
                                          * reports it; here it must not poison the following cases: fresh manager. */
+                                        free_mb_mgr(mgrs[mi].mgr);
                                         mgrs[mi].mgr = make_mgr(&mgrs[mi]);
                                         m = mgrs[mi].mgr;
                                 }
@@ -671,6 +673,7 @@ run_b(const char *path)
                                         while (IMB_FLUSH_JOB(m) != NULL && guard++ < 512)
                                                 ;
                                         if (IMB_QUEUE_SIZE(m) != 0) {
+                                                free_mb_mgr(mgrs[mi].mgr);
                                                 mgrs[mi].mgr = make_mgr(&mgrs[mi]);
                                                 rc = rc ? rc : -8;
                                         }
